@@ -4,7 +4,7 @@ memory diff reported by the driver covers all five backing stores, so any stray 
 import random
 
 RULE = ("classification reads (thorough: all 2^24 addresses; quick: every region boundary +/-16 and a 1/256 lattice), "
-        "write-then-read on plain storage, 16/32-bit accesses at region boundaries, random interleaved histories; "
+        "write-then-read on plain storage, 16/32-bit accesses at region boundaries, random interleaved histories, the @aa:8 / @aa:16 access helpers (all 256 short addresses, boundary and random 16-bit ones, cross-checked through the 24-bit form); "
         "distinct = distinct (op list, results, memory diff)")
 ASSUMPTIONS = ["the driver's own region table is used to poke / diff the backing stores"]
 
@@ -122,6 +122,33 @@ def generate(tier, seed, info):
                 ops.append({1: "r8", 2: "r16", 4: "r32"}[sz] + ":%x" % a)
         if ops:
             add(ops, tagged=rnd.random() < 0.8)
+    # 5. the absolute-address access helpers: @aa:8 reaches H'FFFF00+aa, @aa:16 the sign-extended 24-bit address
+    #    (write through the short form, read back through the 24-bit form and vice versa; a far location must not change)
+    def ea16(a):
+        return a if a < 0x8000 else 0xff0000 | a
+    a16s = sorted(set([0, 1, 2, 0xfe, 0xff, 0x100, 0x7ffe, 0x7fff, 0x8000, 0x8001, 0xbf1e, 0xbf1f, 0xbf20, 0xbf21, 0xc010, 0xe000, 0xe0ff, 0xe100,
+                       0xfe10, 0xfeff, 0xff00, 0xff1e, 0xff1f, 0xff20, 0xff7f, 0xff8a, 0xffcf, 0xffdb, 0xffe9, 0xffea, 0xfffe, 0xffff]
+                      + [rnd.randrange(0x10000) for _ in range(60 if tier == "quick" else 2000)]))
+    for a in a16s:
+        for sz in (1, 2, 4):
+            ea = ea16(a)
+            if any(is_port(x) or 0xffff80 <= x <= 0xffff99 for x in range(ea, ea + sz)):
+                continue
+            v = rnd.randrange(1 << (8 * sz))
+            rd24 = {1: "r8", 2: "r16", 4: "r32"}[sz]
+            wr24 = {1: "w8", 2: "w16", 4: "w32"}[sz]
+            add(["ra:10:%x:%x" % (sz, a)])
+            add(["wa:10:%x:%x:%x" % (sz, a, v), "%s:%x" % (rd24, ea), "ra:10:%x:%x" % (sz, a), "r8:%x" % ((ea ^ 0xff00) & 0xffffff)])
+            add(["%s:%x:%x" % (wr24, ea, v), "ra:10:%x:%x" % (sz, a)])
+    for a in range(256):
+        for sz in (1, 2, 4):
+            ea = 0xffff00 + a
+            if any(is_port(x) or 0xffff80 <= x <= 0xffff99 for x in range(ea, ea + sz)):
+                continue
+            v = rnd.randrange(1 << (8 * sz))
+            rd24 = {1: "r8", 2: "r16", 4: "r32"}[sz]
+            add(["ra:8:%x:%x" % (sz, a)])
+            add(["wa:8:%x:%x:%x" % (sz, a, v), "%s:%x" % (rd24, ea), "ra:8:%x:%x" % (sz, a)])
     info["exhaustive"] = (tier == "thorough")
     info["cases"] = len(lines)
     info["classification"] = "all 2^24 addresses" if tier == "thorough" else "boundaries +/-16 and one address per 256-byte block"
